@@ -236,6 +236,20 @@ theorem caller_own_stack_unchanged {t t' u u' : VM} {a b c d : Nat} {env : CallE
   · simp [debitRange, hc]
   · omega
 
+/-- **The whole round trip, for any callee.** CALL, then ANY balanced execution of the callee (arbitrary code obeying
+the ownership rule, nested call trees of any depth), then RET/RETD: the caller's registers are restored except `$pc`
+(= call site + 4) and the kept registers, its call depth is back, and its stack bytes are unchanged. -/
+theorem call_round_trip {t t' u u' : VM} {a b c d : Nat} {env : CallEnv} {k : RetKind}
+    (hlen : t.regs regSp ≤ t.mem.stackLen) (hpc : t.regs regPc + 4 < 2 ^ 64)
+    (hcall : prepareCall a b c d env t = .ok t') (hexec : Exec t' u) (hret : returnFromContext k u = .ok u') :
+    (∀ i, i ∉ regPc :: retKeptRegs → u'.regs i = t.regs i) ∧ u'.regs regPc = t.regs regPc + 4 ∧
+    u'.frames = t.frames ∧ u'.regs regHp = u.regs regHp ∧
+    (∀ x, x < t.regs regSp → ¬((debitRange env t).1 ≤ x ∧ x < (debitRange env t).1 + (debitRange env t).2) →
+      u'.mem.bytes x = t.mem.bytes x) := by
+  obtain ⟨hf, _, _, _⟩ := exec_preserves hexec
+  obtain ⟨r1, r2, r3, _, r5, _⟩ := call_ret_registers hcall hf hret hpc
+  exact ⟨r1, r2, r3, r5, (caller_stack_unchanged hlen hcall hexec hret).1⟩
+
 /-- **Heap memory allocated by the callee remains readable by the caller**: returning does not touch
 memory and keeps the callee's `$hp`, and accessibility of a range depends only on the memory's `hp` and
 stack length — so every range the callee could read in its heap verifies for the caller, with the same bytes. -/
